@@ -60,6 +60,15 @@ Theorem C13_cap :
 Proof. exact cap_string. Qed.
 Print Assumptions C13_cap.
 
+(* Complement of the hypothesis cap > 0 (hypothesis audit): a non-positive cap reads nothing and
+   returns "", and for the ClassAd reader a non-positive cap is exactly "no limit" (GetClassAd). *)
+Theorem C13_cap_nonpositive :
+  (forall (enc : bool) (cap : Z) (r : reader), (cap <= 0)%Z -> get_string_max enc cap r = (r, MOk [])) /\
+  (forall parse (enc : bool) (cap : Z) (r : reader), (cap <= 0)%Z ->
+     get_classad parse enc cap r = get_classad parse enc 0 r).
+Proof. split; [exact string_cap_nonpositive|exact classad_cap_nonpositive]. Qed.
+Print Assumptions C13_cap_nonpositive.
+
 (* Every string of a bounded ClassAd (expressions, the ZKM secret field, MyType,
    TargetType) is read under the remaining budget, and nothing is read once it is spent. *)
 Theorem C13_cap_classad_read :
@@ -128,6 +137,11 @@ Theorem C13_string_fuel_sufficient :
     (forall acc, get_cstr_loop (fuel + m) r acc = get_cstr_loop fuel r acc).
 Proof. exact string_fuel_sufficient. Qed.
 Print Assumptions C13_string_fuel_sufficient.
+(* ... and the fuel Msg.get_cstr is defined with satisfies that hypothesis. *)
+Theorem C13_get_cstr_fuel_independent :
+  forall (r : reader) (m : nat), get_cstr_loop (S (S (N.to_nat (total_bytes r))) + m) r [] = get_cstr r.
+Proof. exact get_cstr_fuel_independent. Qed.
+Print Assumptions C13_get_cstr_fuel_independent.
 (* the hypothesis is satisfiable by a decryption that accepts everything *)
 Example C13_frames_hypothesis_satisfiable :
   exists open_ : N -> bytes -> bytes -> option bytes,
